@@ -30,16 +30,16 @@ def build(tier, seed, pid):
     tabs, dic = export.write_tables_module(wd)
     rng = random.Random(seed * 7919 + 5)
     if tier == "quick":
-        inst = gl.make_instances(tabs, rng, 2, 220)
+        inst = gl.make_instances(tabs, rng, 2, 220, long_every=7)       # + long-axis cells: indices up to 17
     else:
-        inst = gl.make_instances(tabs, rng, 5, 420)
+        inst = gl.make_instances(tabs, rng, 5, 420, long_every=2)
     pairs = []
     if pid == "C05":
         for (a, b) in rcentred_instances(tabs, rng, 1 if tier == "quick" else 4):
             inst.append(a)
             inst.append(b)
             pairs.append((len(inst) - 1, len(inst)))
-    common.write_data_module(wd, "GenHklCases", {"Instances": inst})
+    common.write_data_module(wd, "GenHklCases", {"Instances": [{k: I[k] for k in ("t", "met", "K", "Kmin")} for I in inst]})
     r = common.run_tlc("GenHkl", "MC_GenHkl.cfg" if tier == "quick" else "MC_GenHkl_live.cfg", wd,
                        timeout=3000, heap="12g")
     if r.violated:
